@@ -23,6 +23,8 @@ func checkC04(r *Report, p *Program) {
 	r04_2(r, p)
 	r04_3(r, p)
 	r04_4(r, p)
+	rmwClosuresReadLive(r, p, "R04.5")
+	adoptAlwaysWrites(r, p, "R04.6")
 }
 
 // tri-state valuation of an atom on a path prefix
